@@ -209,7 +209,7 @@ func c12One(r *fw.Run, p *Pair, c *c12Case) {
 func runC12(r *fw.Run) {
 	rng := rand.New(rand.NewSource(r.Seed*23 + 12))
 	jg := &JGen{R: rng}
-	n := r.Pick(4000, 40000)
+	n := r.Pick(4000, 100000)
 	transports := []string{"unix", "tcp"}
 	if r.Thorough {
 		transports = pairTransports
